@@ -53,8 +53,8 @@ fn internal_htlc_satisfies_config(
 			.and_then(|prop_fee: u64| -> (o: Option<u64>)
         ensures o == (if prop_fee as int / 1000000 + config.forwarding_fee_base_msat as int <= u64::MAX { Some((prop_fee as int / 1000000 + config.forwarding_fee_base_msat as int) as u64) } else { None::<u64> })
         { (prop_fee / 1000000).checked_add(config.forwarding_fee_base_msat as u64) });
-		if fee.is_some() && (htlc.amount_msat < fee.unwrap() ||
-			(htlc.amount_msat - fee.unwrap()) < amt_to_forward) {
+		if fee.is_none() || htlc.amount_msat < fee.unwrap() ||
+			(htlc.amount_msat - fee.unwrap()) < amt_to_forward {
 			return Err(LocalHTLCFailureReason::FeeInsufficient);
 		}
 		if (htlc.cltv_expiry as u64) < outgoing_cltv_value as u64 + config.cltv_expiry_delta as u64 {
@@ -294,6 +294,23 @@ fn must_go_on_chain_for(htlc: &HTLCOutputInCommitment, htlc_outbound: bool, heig
 
 proof fn vac__must_go_on_chain_for(htlc: &HTLCOutputInCommitment, htlc_outbound: bool, height: u32, preimage_known: bool) 
     requires height <= 0x7fff_ffff, htlc.cltv_expiry <= 0x7fff_ffff,
+    ensures false
+{}
+// ---- when a held (intercepted) forward is given up (deep R15 slice of do_chain_event's sweep over pending_intercepted_htlcs) ----
+pub struct PendingHTLCInfo { pub outgoing_cltv_value: u32 }
+pub struct PendingAddHTLCInfo { pub forward_info: PendingHTLCInfo }
+fn intercepted_htlc_is_failed_back(htlc: &PendingAddHTLCInfo, height: u32) -> (kept: bool)
+    requires
+    htlc.forward_info.outgoing_cltv_value >= HTLC_FAIL_BACK_BUFFER, height <= 0x7fff_ffff,
+
+    ensures
+    kept <==> height as int + HTLC_FAIL_BACK_BUFFER < htlc.forward_info.outgoing_cltv_value,
+ {
+        if height >= htlc.forward_info.outgoing_cltv_value - LATENCY_GRACE_PERIOD_BLOCKS { false } else { true }
+    }
+
+proof fn vac__intercepted_htlc_is_failed_back(htlc: &PendingAddHTLCInfo, height: u32) 
+    requires htlc.forward_info.outgoing_cltv_value >= HTLC_FAIL_BACK_BUFFER, height <= 0x7fff_ffff,
     ensures false
 {}
 // (P, C08) with the heights above, the forwarding race of lemma_forward_race is the one the monitor really runs:
